@@ -417,6 +417,33 @@ theorem epss_read_error_detected (step : σ → Byte → Step σ) (init : σ) (s
   simp only
   cases mapAll sem vals <;> simp
 
+/-- epss `ParseEnrichment` on any stream whose bytes are a prefix of a valid
+    spool: it fails, or returns the first `j` records after a clean EOF; with a
+    read error as terminal it always fails.  (`j` short of all records is the
+    cut at a record boundary: finding still-valid-epss.) -/
+theorem epss_prefix_damage (step : σ → Byte → Step σ) (init : σ) (sem : Bytes → Option α)
+    (d : Bytes) (vs : List α) (hd : recordLoop step init sem ⟨[d], .eof⟩ = .ok vs)
+    (st : Stream) (k : Nat) (hst : st.bytes = d.take k) :
+    recordLoop step init sem st = .err ∨
+    ∃ j, recordLoop step init sem st = .ok (vs.take j) ∧ st.term = .eof := by
+  have hd' := loop_propagates_epss step init sem _ vs hd
+  have hb : (Stream.mk [d] Term.eof).bytes = d := by simp [Stream.bytes]
+  rw [hb] at hd'
+  obtain ⟨more, hm⟩ := splitValues_take step init ((d.take k).length + 1) (d.length + 1) d k
+    (by omega) (by omega)
+  unfold recordLoop
+  rw [hst]
+  rcases hs : splitValues step init ((d.take k).length + 1) (d.take k) with ⟨vals, tail⟩
+  rw [hs] at hm
+  simp only at hm ⊢
+  have hmap := hd'.2.2
+  rw [hm] at hmap
+  rw [mapAll_append sem vals more vs hmap]
+  simp only
+  by_cases hc : st.term = .eof ∧ tail = .clean
+  · right; exact ⟨vals.length, by rw [if_pos hc], hc.1⟩
+  · left; rw [if_neg hc]
+
 /-- cvss `ParseEnrichment`: the same, and a successful result always ends in
     the one empty record that was appended before the `Decode` that hit EOF. -/
 theorem loop_propagates_cvss (step : σ → Byte → Step σ) (init : σ) (sem : Bytes → Option α) (zero : α)
@@ -433,6 +460,19 @@ theorem cvss_read_error_detected (step : σ → Byte → Step σ) (init : σ) (s
     (chunks : List Bytes) : recordLoopCvss step init sem zero ⟨chunks, .err⟩ = .err := by
   unfold recordLoopCvss
   rw [epss_read_error_detected]
+
+/-- The same for cvss (every successful result carries the trailing empty record). -/
+theorem cvss_prefix_damage (step : σ → Byte → Step σ) (init : σ) (sem : Bytes → Option α) (zero : α)
+    (d : Bytes) (rs : List α) (hd : recordLoopCvss step init sem zero ⟨[d], .eof⟩ = .ok rs)
+    (st : Stream) (k : Nat) (hst : st.bytes = d.take k) :
+    recordLoopCvss step init sem zero st = .err ∨
+    ∃ vs j, rs = vs ++ [zero] ∧ recordLoopCvss step init sem zero st = .ok (vs.take j ++ [zero]) ∧
+      st.term = .eof := by
+  obtain ⟨_, vs, hrs, hvs⟩ := loop_propagates_cvss step init sem zero _ rs hd
+  unfold recordLoopCvss
+  rcases epss_prefix_damage step init sem d vs hvs st k hst with h | ⟨j, h, ht⟩
+  · left; rw [h]
+  · right; exact ⟨vs, j, hrs, by rw [h], ht⟩
 
 /-! ### compression wrappers, by contract -/
 
